@@ -210,7 +210,7 @@ def r2_cleanup_loop(run, w):
                       isinstance(H.deref(fn, x.value), ast.Name) and
                       H.deref(fn, x.value).id == var, targs[0]):
       emit.add(n.id)
-  truthy = lambda e: True if is_updates(e) else None
+  truthy = lambda e: H.nonempty_value(fn, e, uvar)
   after_q = set(cfg.normal_succ(un.id))
   leak = H.reach_assuming(cfg, after_q, truthy, removed=emit) & stops
   ok = bool(emit) and not leak
